@@ -318,6 +318,43 @@ theorem resp_roundtrip_exact (now : Nat) (m : Resp) (hwf : m.WF) (hn : normResp 
     protoToResp now (respToProto now m) = .ok m := by
   rw [resp_roundtrip now m hwf, hn]
 
+/-- every response that came out of the decoder is normal and well-formed, hence round-trips
+exactly (for protobuf messages whose record TTL is a `uint32`) -/
+theorem decoded_resp_is_normal (now : Nat) (q : PMsg) (m : Resp)
+    (httl : ∀ r, q.record = some r → r.ttl ≤ u32Max)
+    (h : protoToResp now q = .ok m) : normResp now m = m ∧ m.WF := by
+  unfold protoToResp at h
+  split at h
+  · cases h; exact ⟨rfl, trivial⟩
+  · split at h
+    · split at h
+      · rename_i r hr
+        split at h
+        · rename_i rec hrec
+          cases h
+          obtain ⟨h1, h2⟩ := recordFromProto_normal now r rec (httl r hr) hrec
+          exact ⟨by simp [normResp, h1, filterMap_peerFromProto_normal], h2⟩
+        · cases h
+      · cases h
+        exact ⟨by simp [normResp, filterMap_peerFromProto_normal], trivial⟩
+    · split at h
+      · cases h
+        exact ⟨by simp [normResp, filterMap_peerFromProto_normal], trivial⟩
+      · split at h
+        · cases h
+          exact ⟨by simp [normResp, filterMap_peerFromProto_normal], trivial⟩
+        · split at h
+          · split at h
+            · cases h; exact ⟨rfl, trivial⟩
+            · cases h
+          · split at h <;> cases h
+
+theorem decoded_resp_roundtrips (now : Nat) (q : PMsg) (m : Resp)
+    (httl : ∀ r, q.record = some r → r.ttl ≤ u32Max) (h : protoToResp now q = .ok m) :
+    protoToResp now (respToProto now m) = .ok m :=
+  let ⟨hn, hwf⟩ := decoded_resp_is_normal now q m httl h
+  resp_roundtrip_exact now m hwf hn
+
 /-- Ping and Pong share one wire representation: a response can only be told from a request by
 the stream direction (the codec is instantiated per direction). -/
 theorem ping_pong_share_wire (now : Nat) : reqToProto now .ping = respToProto now .pong := rfl
@@ -420,6 +457,8 @@ end C44
 #print axioms C44.resp_roundtrip
 #print axioms C44.normResp_idem
 #print axioms C44.resp_roundtrip_exact
+#print axioms C44.decoded_resp_is_normal
+#print axioms C44.decoded_resp_roundtrips
 #print axioms C44.ping_pong_share_wire
 #print axioms C44.protoToResp_error_iff
 #print axioms C44.specReq_ok_iff
